@@ -48,6 +48,8 @@ def unfix(x):
         return G.numkey_to_float(x["$n"])
     if isinstance(x, list):
         return [unfix(e) for e in x]
+    if isinstance(x, int) and not isinstance(x, bool):
+        return float(x)  # JSON spells integer-valued doubles without exponent
     return x
 
 
@@ -110,6 +112,44 @@ def validate_arr(fraction):
             "disagreements": len(disagreements), "examples": [d for d in disagreements if d][:40]}
 
 
+def validate_assign():
+    """Length assignment and the Array constructor, where the documented
+    stricter-mode rules coincide with ECMAScript (validity of the length)."""
+    from oracles import prims as P
+
+    cells = [c for c in c17.assign_cells() if c[-1]["op"] in ("setlen", "newarr")]
+    scripts, exps = [], []
+    for steps in cells:
+        last = steps[-1]
+        if last["op"] == "setlen":
+            base = [G.pvalue(x) for x in steps[0]["items"]]
+            a = R.Arr(base)
+            v = c17.spec_model(last["val"])
+            try:
+                R.length_write(a, v)
+                exp = ["ok", float(len(a.items))]
+            except R.Throw as t:
+                exp = ["throw", t.value.name]
+            scripts.append("var a = [%s]; var r; try { a.length = %s; r = ['ok', a.length]; } catch (e) { r = ['throw', e.name]; } r"
+                           % (", ".join(P.js_literal(x) for x in base), c17.spec_js(last["val"])))
+        else:
+            ms = [c17.spec_model(x) if x[0] != "rec" else R.Obj() for x in last["args"]]
+            if len(ms) == 1 and isinstance(ms[0], float):
+                exp = ["ok", ms[0]] if float(P.to_uint32(ms[0])) == ms[0] else ["throw", "RangeError"]
+            else:
+                exp = ["ok", float(len(ms))]
+            scripts.append("var r; try { var a = %sArray(%s); r = ['ok', a.length]; } catch (e) { r = ['throw', e.name]; } r"
+                           % ("new " if last["new"] else "", ", ".join("({})" if x[0] == "rec" else c17.spec_js(x) for x in last["args"])))
+        exps.append(exp)
+    outs = node_run(scripts)
+    dis = []
+    for sc, e, o in zip(scripts, exps, outs):
+        act = o[1] if o[0] == "ok" else ["exception"] + o[1:]
+        if act != e:
+            dis.append({"script": sc, "model": e, "node": act})
+    return {"cases": len(scripts), "disagreements": len(dis), "examples": dis[:10]}
+
+
 def core_chunks(seq, size):
     seq = list(seq)
     return [seq[i:i + size] for i in range(0, len(seq), size)]
@@ -120,9 +160,10 @@ def main():
     fraction = float(sys.argv[2]) if len(sys.argv) > 2 else 0.1
     if what == "arr":
         rep = validate_arr(fraction)
-        extra = getattr(c17, "validate_hist_with_node", None)
-        if extra:
-            rep["histories"] = extra(node_run)
+        rep["length_and_constructor"] = validate_assign()
+        rep["disagreements"] += rep["length_and_constructor"]["disagreements"]
+        rep["note"] = ("campaign (b) uses the same method model; its element-assignment rules (write at length appends, "
+                       "further out throws, no holes) are the documented stricter mode of /repo/spec.md and intentionally differ from node")
         path = os.path.join(HERE, "oracle_validation", "arrref.json")
     else:
         rep = c17.validate_typed_with_node(node_run)
